@@ -113,6 +113,8 @@ def scn_retry(ctx):
     horizon = sched.now() + (maxs + 1) * (maxatt + 1) + 10
     for sp in subs:
         wait_done(sp["f"], horizon)
+    # done() turns true before the done-callbacks have run: let the resolving thread finish them
+    sched.vsleep_until(sched.now() + 8 * eps)
     tdone = sched.now()
     for sp in subs:
         f = sp["f"]
@@ -179,9 +181,10 @@ def scn_retry(ctx):
 MUST_REACH = {"*": ["retried"]}
 
 ASSUMPTIONS = [
-    "policy parameters: sleep, max_sleep in [128*eps, 1000], exponent in [1, 8] (thorough: (0, 8] with sleep*exponent >= 128*eps); max_attempts in {1,2,3}",
+    "policy parameters: sleep, max_sleep in [128*eps, 1000], exponent in [1, 8], and in one program (0, 8] with sleep*exponent >= 128*eps; max_attempts in {1,2,3}",
     "'exactly then' is asserted only with one submission (absent contention) as t_start <= t_end + delay + 48*eps",
 ]
+BUDGET = {"quick": 150.0, "thorough": 1500.0}
 BOUNDS_TEXT = {
     "quick": "P<=1 preemptions; 1 submission on thread_pool(2) and sync; max_attempts<=3; scripts of 4 outcomes per invocation; raising policy at attempt 1/2",
     "thorough": "P<=2; 2 concurrent submissions; exponent in (0,8]",
@@ -194,7 +197,8 @@ def plan(tier, seed):
         items.append(dict(scenario="retry", params=dict(nsub=1, max_attempts=3, base="pool"), bounds=dict(P=1)))
         items.append(dict(scenario="retry", params=dict(nsub=1, max_attempts=2, base="sync", base_list=False), bounds=dict(P=1)))
         items.append(dict(scenario="retry", params=dict(nsub=1, max_attempts=3, base="pool", policy="raises", raise_at=2), bounds=dict(P=0)))
-        items.append(dict(scenario="retry", params=dict(nsub=2, max_attempts=2, base="pool"), bounds=dict(P=0)))
+        items.append(dict(scenario="retry", params=dict(nsub=2, max_attempts=2, base="sync"), bounds=dict(P=0)))
+        items.append(dict(scenario="retry", params=dict(nsub=1, max_attempts=3, base="sync", exp_ge1=False), bounds=dict(P=0)))
     else:
         items.append(dict(scenario="retry", params=dict(nsub=1, max_attempts=3, base="pool", exp_ge1=False), bounds=dict(P=2)))
         items.append(dict(scenario="retry", params=dict(nsub=1, max_attempts=3, base="sync"), bounds=dict(P=2)))
